@@ -294,7 +294,7 @@ def run(tier, seed):
     rep.rule = (
         "commit types: the documented names %r in lower/upper/capitalised form plus the default (None); store directories with plain names and names containing '#', '?', ';', spaces and non-ASCII letters; per store a sequence of keeps (value types %r, "
         "re-keeps of a path with changed code, nested paths) each followed by inspection of the fake dbutils' backing tree and loads of every path kept so far; "
-        "legacy: each value kind (str/bytes/pickle) stored, its .meta rewritten to dbfs.string/dbfs.bytes/dbfs.pickle, read by a new store object; faults: one keep with a transient failure injected before each dbutils call in turn, then the same keep again (same or new store object). "
+        "legacy: each value kind (str/bytes/pickle) stored, its .meta rewritten to dbfs.string/dbfs.bytes/dbfs.pickle, read by a new store object; faults: one keep with a transient failure injected before each dbutils call in turn, then the same keep again (same or new store object); workers forked from a process that already used the store load different paths at the same time (downloads lined up by a barrier in the fake dbutils). "
         "distinct_nontrivial = distinct (commit type spelling, keep sequence) runs with >=2 kept paths + distinct (value, legacy ref) reads."
         % (DOCUMENTED, TAGS)
     )
@@ -323,7 +323,16 @@ def run(tier, seed):
         for ti, tag in enumerate(("str_ascii", "bytes_plain", "nested", "frame0") if tier != "quick" else ("str_ascii", "nested", "frame0")):
             jobs.append(("fault", (ct, tag, ti % 2 == 1)))
 
+    # worker processes forked from a process that has already used its DBFS store read different paths at the same time
+    for ct in ("full", "links_only"):
+        jobs.append(("fork", (None, ["str_ascii", "str_nonascii", "nested"], ct)))
+    jobs.append(("fork", (2, ["bytes_plain", "obj"], "full")))
+
     def dispatch(j):
+        if j[0] == "fork":
+            from checks import c17
+
+            return c17.fork_job(j[1], prop="C19")
         return {"commit": commit_job, "legacy": legacy_job, "fault": fault_job}[j[0]](j[1])
 
     results = core.fork_map(dispatch, jobs, timeout=600)
@@ -344,6 +353,11 @@ def replay(payload):
     c = payload["case"]
     if c.get("fault"):
         rep.merge(fault_job((c["commit_type"], c["tag"], c["second_handle"])))
+        return rep
+    if c.get("fork"):
+        from checks import c17
+
+        rep.merge(c17.fork_job((c["cache"], c["tags"], c.get("commit_type")), prop="C19"))
         return rep
     if "seq" in c or "commit_type" in c:
         sp = c["commit_type"]
